@@ -61,6 +61,14 @@ def lLoop (root : Nat → Option F) (size : Nat) (setS : Bool) : Nat → Nat →
       lLoop root size setS n (l + 1) a2
     | _, _ => none
 
+/-- the argument checks of `ntt_internal`, on their own (`none` = the transform proceeds); see
+    `Props.C10.nttInternal_err_iff` -/
+def nttSizeCheck (outLen size : Nat) (setS : Bool) : Option NttError :=
+  if size > outLen then some .outputTooSmall
+  else if (setS && decide (size > 2 ^ (maxRoots - 1))) || decide (size > 2 ^ maxRoots) then some .sizeTooLarge
+  else if size ≠ 2 ^ log2ceil size then some .sizeInvalid
+  else none
+
 /-- `ntt_internal(outp, inp, size, set_s)`; `outp` is given by its length and returned -/
 def nttInternal (root : Nat → Option F) (outLen : Nat) (outp : Array F) (inp : Array F) (size : Nat) (setS : Bool) :
     R (Array F) :=
